@@ -106,6 +106,14 @@ CLAIMED = {
         "Trusted: einxverif/graphs.py interpreter; numpy as the meaning of the called functions. Pairs come from run-time interposition on einx._src.tracer.optimize (no source hook).",
         "DESIGN.md §4 C05, §3 S4",
     ),
+    "C04": (
+        "translation validation by property-based testing: recorded (graph, text, callable) triples of real calls and synthetic IR graphs are executed and compared with an independent graph interpreter",
+        "Generated-input search: (A) for generated real calls the returned text must be the compiled text, be self-contained, have the same code object as the executed callable, and agree with a "
+        "node-by-node interpretation of the recorded graph (results, in-place effects, number of calls); (B) synthetic graphs over all IR node kinds with instrumented callables are compiled and compared "
+        "on results, multiset of calls and final mutable state. Exploration only.",
+        "Trusted: einxverif/graphs.py interpreter (eager, one evaluation per node and scope activation). Recording is run-time interposition on einx._src.tracer.compiler.python.compile.",
+        "DESIGN.md §4 C04, §3 S4",
+    ),
 }
 NOT_YET = "check not built yet in this round (see DESIGN.md §8 build order); the property has an executable oracle and will be claimed once its check is registered"
 
